@@ -42,9 +42,15 @@ def check_only(prop, sid):
     wt = f"/tmp/ingest-{os.getpid()}-{sid}"
     sh(["git", "-C", "/repo", "worktree", "add", "--detach", wt, "HEAD"])
     try:
-        ap = sh(["git", "-C", wt, "apply", os.path.join(out, "patch.diff")])
+        rebased = sorted(f for f in os.listdir(out) if f.startswith("patch_rebased"))
+        patch = rebased[-1] if rebased else "patch.diff"
+        ap = sh(["git", "-C", wt, "apply", os.path.join(out, patch)])
         assert ap.returncode == 0, ap.stderr
         meta["check"] = run_check(prop, wt)
+        meta["check"]["patch_used"] = patch
+        if rebased:
+            env = dict(os.environ, PYTHONPATH=os.path.join(wt, "src"), JAX_PLATFORMS="cpu")
+            meta["demo_rebased_exit"] = sh(["/venv/bin/python", os.path.join(out, "demo.py")], env=env, cwd=wt, timeout=1800).returncode
     finally:
         sh(["git", "-C", "/repo", "worktree", "remove", "--force", wt])
         shutil.rmtree(wt, ignore_errors=True)
